@@ -67,6 +67,13 @@ def generate(tier, rng):
             for op in BOPS:
                 c = {"div": 4, "pow": 2}.get(op, 3)
                 cases.append(dict(stream="exact", uni=uni, x=x, op=dict(kind="num", op=op, c=c)))
+            # whole numbers stored in an integer array, combined with numbers that are not whole
+            xi = dict(x, values=xnz, dtype="int")
+            for j, op in enumerate(BOPS):
+                c = [0.5, 2.5, -1.5][(k + j) % 3] if op not in ("pow", "div") else ([2, -1][(k + j) % 2] if op == "pow" else [0.5, -0.25][(k + j) % 2])
+                cases.append(dict(stream="tolerance" if (op == "pow" and c < 0) else "exact", uni=uni, x=xi, op=dict(kind="num", op=op, c=c)))
+            for j, op in enumerate(["add", "sub", "mul", "div"]):
+                cases.append(dict(stream="tolerance" if op == "div" else "exact", uni=uni, x=xi, op=dict(kind="refl", op=op, c=[0.5, -2.5][(k + j) % 2])))
             for op in ["add", "sub", "mul", "div"]:
                 xx = x if op != "div" else dict(x, values=[rng.choice([1, -1, 2, -4, 0.5]) for _ in range(nx)])
                 cases.append(dict(stream="tolerance" if op == "div" else "exact", uni=uni, x=xx,
